@@ -105,7 +105,9 @@ func c09cid(b byte) cid.Cid {
 
 // C09 (c)-(d), (f): bounded histories of direct announcements and un-cache
 // operations against the specification
-//   delivered <=> allowed(peer) && !recentlySeen(cid)
+//
+//	delivered <=> allowed(peer) && !recentlySeen(cid)
+//
 // with rejected announcements leaving the duplicate filter untouched.
 func VerifC09_ReceiverHistory() {
 	allowA := verif_Bool("allowPeerA")
